@@ -14,6 +14,7 @@ macro_rules! harnesses {
                 #[kani::stub(std::fmt::format, crate::stubs::format_stub)]
                 #[kani::stub(std::backtrace::Backtrace::capture, crate::stubs::backtrace_stub)]
                 #[kani::stub(f64::powf, crate::stubs::powf_stub)]
+                #[kani::stub(std::hash::RandomState::new, crate::stubs::random_state_stub)]
                 fn $name() {
                     let mut n = crate::nondet::KaniNondet;
                     ($body)(&mut n);
